@@ -88,7 +88,7 @@ fn chunkings_of(seq: &[u8]) -> Vec<Vec<Vec<u8>>> {
 
 pub fn c10(tier: Tier) -> i32 {
     use seq_io::fasta::{self, Record};
-    let maxn = if tier == Tier::Quick { 7 } else { 10 };
+    let maxn = if tier == Tier::Quick { 7 } else { 13 };
     // work items: (n, width)
     let mut items = vec![];
     for n in 0..=maxn {
@@ -284,7 +284,7 @@ fn fasta_normalised(data: &[u8]) -> Vec<u8> {
 pub fn c11(tier: Tier) -> i32 {
     use seq_io::fastq::{self, Record};
     // (a) writers
-    let maxn = if tier == Tier::Quick { 4 } else { 6 };
+    let maxn = if tier == Tier::Quick { 4 } else { 12 };
     let mut tot = par_sweep(HEADS.len() as u64 * (maxn as u64 + 1), 1, |idx, l| {
         let head = HEADS[idx as usize % HEADS.len()];
         let n = idx as usize / HEADS.len();
@@ -336,7 +336,7 @@ pub fn c11(tier: Tier) -> i32 {
     });
     // (b) write_unchanged over well-formed inputs
     for format in [Format::Fasta, Format::Fastq] {
-        let files = rec_files(format, if tier == Tier::Quick { 2 } else { 3 }, if format == Format::Fasta { &[0, 2] } else { &[0] }, &[0, 1, 2], false);
+        let files = rec_files(format, if tier == Tier::Quick { 2 } else if format == Format::Fastq { 4 } else { 3 }, if format == Format::Fasta { &[0, 2] } else { &[0] }, &[0, 1, 2], false);
         let t = par_sweep(files.len() as u64, 4, |idx, l| {
             let data = files[idx as usize].bytes();
             for cap in capacities(data.len()) {
@@ -436,10 +436,10 @@ pub fn c19(tier: Tier) -> i32 {
         let mut fams = crate::c_inputs::families(format, tier);
         // class strings two shorter than the conformance sweeps (four serialisations per batch)
         if let crate::c_inputs::Family::Class { maxlen, .. } = &mut fams[0] {
-            *maxlen -= 2;
+            *maxlen -= if tier == Tier::Quick { 2 } else { 3 };
         }
         if let crate::c_inputs::Family::Struct(s) = &mut fams[1] {
-            s.max_lines -= 1;
+            s.max_lines -= if tier == Tier::Quick { 1 } else { 2 };
         }
         for fam in &fams {
             let t = par_sweep(fam.count(), 64, |idx, l| {
